@@ -84,7 +84,8 @@ class CacheWorld:
         hdir.time = _Clock()
         self.nsnap = 0
         self.steps = []
-        self.flags = {"hit_after_mutation": False, "cross_protocol_hit": False, "expiry_after_hit": False, "alias_takeover": False}
+        self.flags = {"hit_after_mutation": False, "cross_protocol_hit": False, "expiry_after_hit": False, "alias_takeover": False, "regeneration_failed": False}
+        self.broken = {}
 
     def close(self):
         self._hdir.time = self._realtime
@@ -166,6 +167,19 @@ class CacheWorld:
                 with open(os.path.join(p, fs[step["idx"] % len(fs)] + ".abstract"), "w") as f:
                     f.write(step["title"] + "\n")
                 self._mut(d)
+        elif op == "breaklinks":
+            # a malformed link file: generating the listing raises until it is repaired
+            with open(os.path.join(p, ".Links"), "w") as f:
+                f.write("Name=Broken\nType=1\nPath=/b\nHost=far.example\nPort=7O\n" if step.get("how") != "type" else "Name=Broken\nType=\nPath=/b\n")
+            self.broken[PHYS.get(d, d)] = True
+            self._mut(d)
+        elif op == "fixlinks":
+            try:
+                os.unlink(os.path.join(p, ".Links"))
+            except OSError:
+                pass
+            self.broken[PHYS.get(d, d)] = False
+            self._mut(d)
         elif op == "grow":
             fs = self.files(d)
             if fs:
@@ -215,7 +229,8 @@ class CacheWorld:
             self.flags["alias_takeover"] = True
         r = drive.serve(self.cfg, clients.encode(form, dsel.encode()), tls=clients.FORMS[form][0])
         fails = []
-        if r.escaped is not None or r.exception_classes():
+        errored = r.escaped is not None or bool(r.exception_classes())
+        if errored and not self.broken.get(key):
             return [Fail("listing-error:%s" % (r.handled_signatures() or ["escaped"])[0],
                          "listing %s via %s raised %r" % (dsel, form, r.logs[-1:]))]
         if hit:
@@ -235,10 +250,18 @@ class CacheWorld:
             snap = os.path.join(self.base, "snap%d" % self.nsnap)
             _copytree(self.root, snap)
             exp = self._reference(snap, dsel, form)
-            if c is not None:
+            if c is not None and not errored:
                 shutil.rmtree(c["snap"], ignore_errors=True)
-            self.cache[key] = {"age": 0, "snap": snap, "writer": form, "mutated": False, "hits": 0,
-                               "age_at_last_hit": None, "sel": dsel}
+            if errored:
+                # the directory cannot be listed at present (a malformed link file): the reference fails the same way, and
+                # nothing was written - whatever cache entry existed stays as it was (expired)
+                shutil.rmtree(snap, ignore_errors=True)
+                if c is not None:
+                    self.cache[key] = c
+                self.flags["regeneration_failed"] = True
+            else:
+                self.cache[key] = {"age": 0, "snap": snap, "writer": form, "mutated": False, "hits": 0,
+                                   "age_at_last_hit": None, "sel": dsel}
             kind = "miss"
         if hit:
             c["age_at_last_hit"] = c["age"]
@@ -365,6 +388,19 @@ class CacheMachine(RuleBasedStateMachine):
         self._do({"op": "list", "dir": other, "form": f2})
         self._do({"op": "advance", "dt": dt2, "how": how})
         self._do({"op": "list", "dir": first, "form": f3})
+
+    @rule(d=st.sampled_from(["/a", "/b"]), f1=st.sampled_from(FORMS), f2=st.sampled_from(FORMS), f3=st.sampled_from(FORMS), name=name_st,
+          dt=st.sampled_from([1010, 2500, 86400 + 30]), how=st.sampled_from(["port", "type"]), adv=st.sampled_from(["utime", "shift"]))
+    def broken_cycle(self, d, f1, f2, f3, name, dt, how, adv):
+        """a listing is cached, the directory changes and gets a malformed link file, the lifetime passes: the next listing
+        cannot be generated - it must not fall back to the expired entry; after the repair it is generated afresh"""
+        self._do({"op": "list", "dir": d, "form": f1})
+        self._do({"op": "create", "dir": d, "name": name})
+        self._do({"op": "breaklinks", "dir": d, "how": how})
+        self._do({"op": "advance", "dt": dt, "how": adv})
+        self._do({"op": "list", "dir": d, "form": f2})
+        self._do({"op": "fixlinks", "dir": d})
+        self._do({"op": "list", "dir": d, "form": f3})
 
     @rule(d=st.sampled_from(LIST_DIRS), form=st.sampled_from(FORMS))
     def list_a(self, d, form):
